@@ -97,6 +97,54 @@ example : (match sq "length" "m", sq "Unknown" "<unknown>" with
     | .ok qm, .ok qu => some (Operand.valueIn poscDb 0 (.sc (5 / 2) (.simple qu)) qm.unit)
     | _, _ => none) = some (.ok (5 / 2)) := by decide +kernel
 
+/-! ### pooled objects and histories (the hypotheses of the `stir_*` / `stirred_*` theorems are met) -/
+
+private def qMCm : Qty :=
+  ⟨[⟨Sym.ofString "length", Sym.ofString "m", 1, false⟩, ⟨Sym.ofString "depth", Sym.ofString "cm", 1, false⟩], 0,
+    Sym.ofString "m.cm"⟩
+private def qMM : Qty :=
+  ⟨[⟨Sym.ofString "length", Sym.ofString "m", 1, false⟩, ⟨Sym.ofString "depth", Sym.ofString "m", 1, false⟩], 0,
+    Sym.ofString "m2"⟩
+
+/-- the quantity `m.cm` (a quantity type twice, two units), two Scalars on it (one Quantity object: one `qid`),
+the look-alike `m2` and a Scalar on it, an Array, `None` -/
+private def pool1 : List PObj :=
+  [⟨.quantity qMCm, 0, 1⟩, ⟨.scalar 2 qMCm, 1, 1⟩, ⟨.scalar 2 qMCm, 2, 1⟩, ⟨.quantity qMM, 3, 2⟩, ⟨.scalar 2 qMM, 4, 2⟩,
+   ⟨.arr ⟨[1, 2], .list, qMCm, none⟩, 5, 1⟩, ⟨.none, 6, 0⟩]
+
+/-- the Scalar is hashed first (memoising `_hash` of the shared Quantity object), then it is the left operand of
+sums and products, compared, converted -/
+private def hist1 : List StirOp :=
+  [.hash 1, .hash 5, .arith 1 4, .arith 4 1, .arith 0 3, .cmp 1 4, .read 1, .hash 0, .hash 4, .arith 2 1]
+
+example : poolWF pool1 = true := by decide +kernel
+
+/-- the history did memoise: two Quantity objects have their `_hash` set, through a Scalar and directly -/
+example : ((Session.fresh pool1).run hist1).memo.length = 2 := by decide +kernel
+
+/-- after the history: 2 m.cm == 2 m.cm (another object, equal hashes through the memo), 2 m.cm != 2 m2, the
+quantity m.cm != the quantity m2, an Array is unhashable, an index outside the pool is an error -/
+example :
+    let s := (Session.fresh pool1).run hist1
+    s.eq 0 1 2 = .ok true ∧ (s.hash 1).1 = (s.hash 2).1 ∧ (s.hash 1).1 = pyHash (.scalar 2 qMCm)
+    ∧ s.eq 0 1 4 = .ok false ∧ s.ne 0 1 4 = .ok true ∧ s.eq 0 0 3 = .ok false
+    ∧ (s.hash 5).1 = .error .type ∧ s.eq 0 6 6 = .ok true ∧ s.eq 0 1 7 = .error .index := by decide +kernel
+
+/-- what the hypothesis `poolWF` excludes: one Quantity object (`qid` 1) with two contents, which is what a
+composing map rewritten in place after `_hash` was taken amounts to.  There the memoised hash of the first
+holder is served to the second, whose own key differs: `stir_invisible_hash` needs the hypothesis. -/
+example :
+    let bad : List PObj := [⟨.scalar 2 qMCm, 0, 1⟩, ⟨.scalar 2 qMM, 1, 1⟩]
+    poolWF bad = false
+    ∧ (((Session.fresh bad).run [.hash 0]).hash 1).1 = pyHash (.scalar 2 qMCm)
+    ∧ (((Session.fresh bad).run [.hash 0]).hash 1).1 ≠ (Session.fresh bad).pureHash 1 := by decide +kernel
+
+/-- `AbstractValueWithQuantityObject.__hash__(o)` raises NotImplementedError when called explicitly, while
+`hash(o)` of an Array is the TypeError of an unhashable class and a Scalar hashes -/
+example : absBaseHash (.arr ⟨[1, 2], .list, qMCm, none⟩) = .error .readonly
+    ∧ pyHash (.arr ⟨[1, 2], .list, qMCm, none⟩) = .error .type
+    ∧ (pyHash (.scalar 2 qMCm)).toBool = true := by decide +kernel
+
 end examples
 
 
